@@ -5,7 +5,7 @@
    call / assignment / connect / replace / disconnect / reference-fetching operations, with any
    instances, port names and arguments (connectables of every kind, dicts, non-connectables). *)
 Require Import Hdl21.Base.PyInt Hdl21.Model.C04ConnOps Hdl21.Spec.C04LastWrite Hdl21.Proofs.C04Proofs
-               Hdl21.Model.C04Groups Hdl21.Proofs.C04GroupProofs.
+               Hdl21.Model.C04Groups Hdl21.Proofs.C04GroupProofs Hdl21.Proofs.C04GroupComplete.
 
 (* 1. the books stay in step, after every history: a port is in a connectable's back-reference set
       exactly when that connectable is the port's current connection; `conns` is a dict (no duplicate
@@ -138,6 +138,54 @@ Proof.
 Qed.
 Print Assumptions C04_noconn_seed.
 
+
+(* 8. ... and a group holds EVERYTHING the final mapping joins to it (no net is split): for each member
+      port, the reference or object it is finally connected to is a member, and so is every port (of an
+      instance of the module) that is finally connected to the member's reference *)
+Theorem C04_groups_closed ops inmod fuel q g r :
+  follow (run ops) inmod fuel q [] = Some g -> In (GRef r) g ->
+  In (GRef q) g /\
+  (forall i p, final r ops = Some (CRef i p) -> In (GRef (i, p)) g) /\
+  (forall k id, final r ops = Some (CObj k id) -> In (GConn (CObj k id)) g) /\
+  (forall r', final r' ops = Some (CRef (fst r) (snd r)) -> inmod (fst r') = true -> In (GRef r') g).
+Proof.
+  intros H Hr. destruct (follow_closed (run ops) inmod fuel q [] g H) as [[_ G] Q].
+  destruct (G r Hr) as [[]|[A B]]. split; [exact Q|]. repeat split.
+  - intros i p F. rewrite <- C04_final_mapping_only in F. exact (A _ F).
+  - intros k id F. rewrite <- C04_final_mapping_only in F. exact (A _ F).
+  - intros r' F M. apply B; [|exact M]. apply C04_sync_reachable. rewrite C04_final_mapping_only. exact F.
+Qed.
+Print Assumptions C04_groups_closed.
+
+(* so, when every instance belongs to the module, the references of a group are exactly the connected
+   component of its seed in the final mapping: nothing merged, nothing split *)
+Theorem C04_group_is_component ops fuel q g r :
+  follow (run ops) (fun _ => true) fuel q [] = Some g -> (In (GRef r) g <-> reach (run ops) q r).
+Proof.
+  intros H. split.
+  - intros Hr. destruct (C04_groups_follow_final_mapping ops _ fuel q g _ H Hr) as [[r' [E R]]|[r' [c [E _]]]];
+      [inversion E; subst; exact R | discriminate].
+  - intros R. induction R as [|b c R IH [A|A]].
+    + destruct (follow_closed (run ops) (fun _ => true) fuel q [] g H) as [_ Q]. exact Q.
+    + destruct (C04_groups_closed ops _ fuel q g b H IH) as [_ [F _]]. rewrite C04_final_mapping_only in A.
+      specialize (F _ _ A). destruct c; exact F.
+    + destruct (C04_groups_closed ops _ fuel q g b H IH) as [_ [_ [_ F]]]. rewrite C04_final_mapping_only in A.
+      exact (F c A eq_refl).
+Qed.
+Print Assumptions C04_group_is_component.
+
+(* 9. the walk always terminates within `number of ports + 1` nested calls: fuel exhaustion is unreachable *)
+Theorem C04_groups_total ops inmod q g0 : In q (ports_of (run ops)) ->
+  exists g, follow (run ops) inmod (S (List.length (ports_of (run ops)))) q g0 = Some g.
+Proof.
+  intros Hq. apply (follow_total (run ops) inmod (ports_of (run ops)) (ports_closed _ (inv_run ops))); [exact Hq|].
+  pose proof (missing_le (ports_of (run ops)) g0). lia.
+Qed.
+Print Assumptions C04_groups_total.
+
+Theorem C04_seeds_are_ports ops q : In q (seeds (run ops)) -> In q (ports_of (run ops)).
+Proof. apply seeds_in_ports. Qed.
+Print Assumptions C04_seeds_are_ports.
 
 (* ---- non-vacuity *)
 Definition s0 := CObj KSig 0.
